@@ -12,6 +12,7 @@ import CoapVerif.Generated.ThreadCfg
 -- DRIVER-OPS: lkcb => Coap.Driver.Lock.cbStep
 -- DRIVER-OPS: lkwin => Coap.Driver.Lock.winStep
 -- DRIVER-OPS: lkctxfail => Coap.Driver.Lock.ctxFailStep
+-- DRIVER-OPS: lkeintr => Coap.Driver.Lock.eintrStep
 -- DRIVER-OPS: lksmoke => Coap.Driver.Lock.smokeStep
 namespace Coap.Driver.Lock
 open Coap Coap.Lock
@@ -136,6 +137,22 @@ def ctxFailStep (args : List String) : String :=
     match (runSeq (tokStep false) 0 [.lock, .unlock] G.init).getLast? with
     | some (some o) => "M ret=null held=" ++ b01 o.held ++ " | S ret=null held=0"
     | _ => "M ret=null held=? | S ret=null held=0"
+  | _ => "bad-op"
+
+/-- `lkeintr <rc>`: the I/O thread `[lock, cbIn win, cbOut win, unlock]` against a thread holding the lock in an event
+callback `[lock, cbIn ret, cbOut ret, unlock]`, scheduled so that the window closes (`cbOut win`, the EINTR return)
+while the other thread is inside its callback: the model refuses that turn (`blk`) and then runs to completion -/
+def eintrStep (args : List String) : String :=
+  match args with
+  | [r] =>
+    match rcOf r with
+    | some rc =>
+      let progs := progsOf [[.lock, .cbIn .win, .cbOut .win, .unlock], [.lock, .cbIn .ret, .cbOut .ret, .unlock]]
+      let r := runSched rc [0, 0, 1, 1, 0] progs G.init
+      let refused := r.1.getLast? == some none
+      let fin := finish rc 2 30 1 r.2.1 r.2.2
+      "M " ++ (if refused && fin == some G.init then "ok" else "unserialised") ++ " | S ok"
+    | none => "bad-op"
   | _ => "bad-op"
 
 /-- `lksmoke …`: a test, not a model run: the only acceptable outcome is `ok` -/
